@@ -1,8 +1,8 @@
 CONSTANTS
   MaxRows = 3
-  QuerySet = "group"
+  QuerySet = "order"
   EmitMode = "cases"
-  TableStride = 2
+  TableStride = 4
   Variant = "ok"
 INIT Init
 NEXT Next
